@@ -43,7 +43,35 @@ func Match(patterns []string, mode Mode, s string) (string, error) {
 	if mode&Suffix != 0 && mode&Prefix != 0 {
 		return "", NoMatch
 	}
-	rx, err := compile(patterns, mode)
+	// An alternation prefers its first alternative, not the shortest or
+	// the longest one, so each pattern is matched on its own.
+	var rv string
+	var ok bool
+	for _, pat := range patterns {
+		switch m, err := match(pat, mode, s); {
+		case err == NoMatch:
+		case err != nil:
+			return "", err
+		case !ok:
+			rv, ok = m, true
+		case mode&Smallest != 0 && mode&Largest == 0:
+			if len(m) < len(rv) {
+				rv = m
+			}
+		default:
+			if len(m) > len(rv) {
+				rv = m
+			}
+		}
+	}
+	if !ok {
+		return "", NoMatch
+	}
+	return rv, nil
+}
+
+func match(pat string, mode Mode, s string) (string, error) {
+	rx, err := compile([]string{pat}, mode)
 	if err != nil {
 		return "", err
 	}
